@@ -26,7 +26,7 @@ META = {
         "thorough": "same (no structural dimension to enlarge) plus call-order variations",
     },
     "stubs": ["pyhf.infer.utils.get_test_stat -> returns the stub statistic", "pyhf.infer.calculators.generate_asimov_data -> symbolic dataset"],
-    "outside_claim": ["monotonicity of the five-point band (needs log-concavity of Phi, not entailed by the axioms)", "double-precision tail representability", "other backends"],
+    "outside_claim": ["monotonicity of the five-point band (needs log-concavity of Phi, not entailed by the axioms)", "double-precision tail representability and rounding in general (exact rational arithmetic); the only float observation is the boundary step: the real numpy code at 24 seeded points pinned to q = 0 per item must not produce NaN/infinity where the exact value is finite (sampling, labelled :float-boundary)", "other backends"],
 }
 
 
@@ -66,6 +66,12 @@ class _StatStub:
 
 def _phi(env, x):
     return env.uf("Phi", x)
+
+
+def boundary(item):
+    """case boundary of the observed statistic (q = 0: best-fit value on the far side of the tested one): the float
+    implementation must still give finite p-values there (checked on the real numpy code, see harness.run_item)"""
+    return [{"q0": 0}]
 
 
 def harness_for(item):
